@@ -349,3 +349,57 @@ _scalar_sqrt = NpShim.sqrt
 _scalar_square = NpShim.square
 NpShim.sqrt = staticmethod(lambda x: x.map(sqrt) if isinstance(x, Arr) else sqrt(x))
 NpShim.square = staticmethod(lambda x: x.map(lambda v: v * v) if isinstance(x, Arr) else x * x)
+
+
+# ----------------------------------------------------------------------------------------------
+class PiecewisePoly(object):
+    """The spline of a CONCRETE table as extracted from the real FITPACK object (scipy PPoly.from_spline): on each knot
+    interval a polynomial in (t - x_i).  t may be symbolic: locating the interval forks once per breakpoint."""
+
+    def __init__(self, breaks, coefs):
+        # breaks: strictly increasing x_0 < ... < x_m ; coefs[i] = [a_0, a_1, ...] for sum a_k (t - x_i)^k on [x_i, x_{i+1}]
+        self.x, self.a = list(breaks), [list(c) for c in coefs]
+        self.cum = [0.0]
+        for i in range(len(self.a)):
+            self.cum.append(self.cum[-1] + self._anti_local(i, self.x[i + 1]))
+
+    @classmethod
+    def from_real_spline(cls, spl):
+        from scipy.interpolate import PPoly
+        pp = PPoly.from_spline(spl._eval_args)
+        xs, cs = [], []
+        for i in range(len(pp.x) - 1):
+            if pp.x[i + 1] > pp.x[i]:
+                xs.append(float(pp.x[i]))
+                k = pp.c.shape[0]
+                cs.append([float(pp.c[k - 1 - j][i]) for j in range(k)])
+        xs.append(float(pp.x[-1]))
+        return cls(xs, cs)
+
+    def _piece(self, t):
+        for i in range(len(self.a) - 1):
+            if t < self.x[i + 1]:
+                return i
+        return len(self.a) - 1
+
+    def __call__(self, t):
+        i = self._piece(t)
+        u = t - self.x[i]
+        acc = 0
+        for ak in reversed(self.a[i]):
+            acc = acc * u + ak
+        return acc
+
+    def _anti_local(self, i, t):
+        u = t - self.x[i]
+        acc = 0
+        for k in reversed(range(len(self.a[i]))):
+            acc = acc * u + self.a[i][k] / (k + 1)
+        return acc * u
+
+    def anti(self, t):
+        i = self._piece(t)
+        return self.cum[i] + self._anti_local(i, t)
+
+    def integral(self, a, b):
+        return self.anti(b) - self.anti(a)
